@@ -23,7 +23,7 @@ LEVEL = "exploration"
 RULE = ("scenario = 1..3 producers x 1..10 items each (typed messages of the four envelope classes + legacy class, plain dicts, "
         "pre-serialised strings, unserialisable objects) x child read behaviour (eager/slow/stall windows) x pipe capacity x close instant; "
         "non-trivial = a send blocked on back-pressure, or an unserialisable item preceded a serialisable one, or >= 2 producers interleaved")
-PROBES = ["child_closed_stdout_keeps_reading", "unencodable_string_item", "value_rejected_by_fast_json_backend", "frame_over_64k", "inbound_batch_rejected_during_writes", "stdin_send_blocked", "unserialisable_before_valid", "producers_interleaved", "payload_with_line_breaks", "closed_while_backlog"]
+PROBES = ["typed_object_changed_in_place_and_sent_again", "child_closed_stdout_keeps_reading", "unencodable_string_item", "value_rejected_by_fast_json_backend", "frame_over_64k", "inbound_batch_rejected_during_writes", "stdin_send_blocked", "unserialisable_before_valid", "producers_interleaved", "payload_with_line_breaks", "closed_while_backlog"]
 TIERS = {"quick": {"runs": 15000, "wall": 45.0}, "thorough": {"runs": 800000, "wall": 560.0}}
 ASSUMPTIONS = [
     "order 'sent' = order in which the (real, FIFO) write stream accepted the items",
@@ -82,6 +82,13 @@ def generate(rng: random.Random, tier: str) -> dict:
             it["delay"] = rng.choice([0, 0, 0, 1, 3, 20])
             items.append(it)
     rng.shuffle(items)
+    # a typed message object that was already sent is changed in place (not by assigning a field) and sent again by the same producer
+    for i in range(len(items) - 1, -1, -1):
+        it = items[i]
+        if it["shape"].startswith("typed_") and not it.get("big") and rng.random() < 0.12:
+            k += 1
+            items.insert(rng.randrange(i + 1, len(items) + 1), {"shape": "resend", "k": k, "base": copy.deepcopy(it), "bump": rng.randrange(2, 99),
+                                                               "producer": it["producer"], "delay": rng.choice([0, 0, 1, 3])})
     read_mode = rng.choice(["eager", "eager", "slow", "slow", "stall"])
     fault = None
     closes_stdout = None
@@ -102,6 +109,9 @@ def generate(rng: random.Random, tier: str) -> dict:
 
 
 def simplify(scn):
+    for i, it in enumerate(scn["items"]):
+        if it["shape"] == "resend":
+            c = copy.deepcopy(scn); c["items"].pop(i); yield c
     if scn.get("child_closes_stdout_at") is not None:
         c = copy.deepcopy(scn); c["child_closes_stdout_at"] = None; yield c
     if scn.get("inbound_batches"):
@@ -126,8 +136,35 @@ def simplify(scn):
             c = copy.deepcopy(scn); c["items"][i]["producer"] = 0; yield c
 
 
-def _materialise(it):
+def _mutate_in_place(d, bump):
+    """the same edit on a typed object's payload dicts and on the expected JSON value"""
+    if isinstance(d.get("params"), dict):
+        if isinstance(d["params"].get("arguments"), dict):
+            d["params"]["arguments"]["attempt"] = bump
+        else:
+            d["params"]["message"] = f"again-{bump}"
+    elif isinstance(d.get("result"), dict):
+        d["result"]["k"] = bump
+    elif isinstance(d.get("error"), dict) and isinstance(d["error"].get("data"), dict):
+        d["error"]["data"]["k"] = bump
+    else:
+        return False
+    return True
+
+
+def _materialise(it, registry=None):
     """-> (python object to send, expected decoded JSON value or None if unserialisable)"""
+    if it["shape"] == "resend":
+        base = it["base"]
+        obj = registry.get(base["k"]) if registry is not None else None
+        fresh_obj, exp = _materialise(base)
+        if obj is None:
+            obj = fresh_obj
+        exp = copy.deepcopy(exp)
+        _mutate_in_place(exp, it["bump"])
+        view = {"params": getattr(obj, "params", None), "result": getattr(obj, "result", None), "error": getattr(obj, "error", None)}
+        _mutate_in_place(view, it["bump"])
+        return obj, exp
     from chuk_mcp.protocol.messages.json_rpc_message import (JSONRPCRequest, JSONRPCNotification, JSONRPCResponse, JSONRPCError,
                                                               JSONRPCMessage)
     sh = it["shape"]
@@ -226,12 +263,28 @@ def execute(scn: dict) -> dict:
                 nprod = 1 + max((it["producer"] for it in scn["items"]), default=0)
 
                 async def producer(p):
+                    registry = {}
                     for it in scn["items"]:
                         if it["producer"] != p:
                             continue
                         if it["delay"]:
                             await anyio.sleep(ticks(it["delay"]))
-                        obj, exp = _materialise(it)
+                        if it["shape"] == "resend":
+                            # only once the first copy has left the queue (the writer serialises an item the moment it takes it);
+                            # changing an object that is still queued is the caller's own race, not the writer's
+                            waited = 0
+                            while write.statistics().current_buffer_used > 0 and waited < 3000:
+                                await anyio.sleep(ticks(5))
+                                waited += 5
+                            if write.statistics().current_buffer_used > 0:
+                                st.setdefault("resend_skipped", set()).add(it["k"])
+                                continue
+                            await anyio.sleep(ticks(1))
+                        obj, exp = _materialise(it, registry)
+                        if it["shape"].startswith("typed_"):
+                            registry[it["k"]] = obj
+                        if it["shape"] == "resend":
+                            sim.probe("typed_object_changed_in_place_and_sent_again")
                         try:
                             await ws.send(obj)
                         except (anyio.ClosedResourceError, anyio.BrokenResourceError):
@@ -282,6 +335,8 @@ def execute(scn: dict) -> dict:
     # map accepted objects back to their spec: re-materialise in producer order
     per_prod = {}
     for it in scn["items"]:
+        if it["k"] in st.get("resend_skipped", ()):
+            continue
         per_prod.setdefault(it["producer"], []).append(it)
     cursor = {p: 0 for p in per_prod}
     prods_seen = []
